@@ -424,7 +424,7 @@ def check_cases(ctx, cases, tag="tidy"):
 
 
 def run(ctx):
-    n = int(os.environ.get("VERIF_N", 800 if ctx.quick else 20000))
+    n = int(os.environ.get("VERIF_N", 800 if ctx.quick else 15000))
     ctx.coverage["rule"] = ("executable generated modules (prologues, imports before / between / after uses, `;` lines, defs, "
                             "classes, multi-line expressions) x databases over a synthetic universe (unique / ambiguous / absent / "
                             "dotted entries / aliases / mandatory __future__) x flag combinations (10%) x __init__.py/.pyflyby paths (10%); "
